@@ -60,3 +60,47 @@ Proof.
   vm_compute in E. inversion E; subst t. clear E.
   eexists. split; [exact Hin|]. repeat split.
 Qed.
+
+(* ---------------------------------------------------------------- *)
+(* C12 on the unchanged code *)
+
+Definition ip8888 : ip := 134744072.
+Definition w12_free : list op := [ORequest 0 (dmsg0 c3 0 (Some ipA) us)].
+Definition w12_req : list op :=
+  [ODiscover 0 (dmsg0 c2 2 (Some ip8888) None); ORequest 0 (dmsg0 c2 2 (Some ip8888) us)].
+Definition w12_prl : list op := [ODiscover 0 (mkMsg c1 1 0 None None None false 0 [3; 1; 6])].
+
+Ltac last_step c w :=
+  let E := fresh "E" in let t := fresh "t" in let rest := fresh "rest" in
+  destruct (rev (trace c (init c) (with_ch0 w))) as [|t rest] eqn:E; [vm_compute in E; discriminate|];
+  exists t;
+  assert (Hin : In t (trace c (init c) (with_ch0 w))) by (apply in_rev; rewrite E; left; reflexivity);
+  vm_compute in E; inversion E; subst t; clear E.
+
+(* an ACK carries an address outside the subnet selected by the client's capture state *)
+Lemma reply_subnet_refuted : exists c h t m r,
+  In t (trace c (init c) h) /\ op_msg (t_op t) = Some m /\ t_reply t = Some r /\
+  r_type r = RAck /\ c12_subnet c (t_pre t) m r = false.
+Proof.
+  exists wcfg, (with_ch0 w12_req). last_step wcfg w12_req.
+  exists (dmsg0 c2 2 (Some ip8888) us). eexists. split; [exact Hin|]. repeat split.
+Qed.
+
+(* an ACK that confirms neither an offer of this transaction nor a current lease, for a request
+   that cannot be honoured (the client is unknown) *)
+Lemma ack_matches_refuted : exists c h t m r,
+  In t (trace c (init c) h) /\ op_msg (t_op t) = Some m /\ t_reply t = Some r /\
+  r_type r = RAck /\ c12_ack_matches (t_pre t) m r = false /\
+  cannot_honour c (t_pre t) m = true.
+Proof.
+  exists wcfg, (with_ch0 w12_free). last_step wcfg w12_free.
+  exists (dmsg0 c3 0 (Some ipA) us). eexists. split; [exact Hin|]. repeat split.
+Qed.
+
+(* the router option precedes the subnet mask when the client's parameter list says so *)
+Lemma mask_first_refuted : exists c h t r,
+  In t (trace c (init c) h) /\ t_reply t = Some r /\ r_type r = ROffer /\ c12_mask_first r = false.
+Proof.
+  exists wcfg, (with_ch0 w12_prl). last_step wcfg w12_prl.
+  eexists. split; [exact Hin|]. repeat split.
+Qed.
